@@ -30,6 +30,7 @@ CANARIES = {
         ("marking-payload-built-without-the-switch", "stix2/v21/common.py", "text", ["                    allow_custom=kwargs.get('allow_custom', False),\n                    interoperability=kwargs.get('interoperability', False),\n                    **defn\n", "                    interoperability=kwargs.get('interoperability', False),\n                    **defn\n"], "C01.custom-content-round-trip"),
     ],
     "C02": [
+        ('uuid-form-by-length', 'stix2/properties.py', 'text', ['    ok = str(uuid_obj) == uuid_str.lower() \\\n        and uuid_obj.variant == uuid.RFC_4122', '    ok = len(uuid_str) == 36 \\\n        and uuid_obj.variant == uuid.RFC_4122'], 'C02.clean-contract'),
         ('extension-key-looked-up-everywhere', 'stix2/properties.py', 'text', ['            cls = class_for_type(key, self.spec_version, "extensions")', '            cls = class_for_type(key, self.spec_version)'], 'C02.strict-refusal'),
         ("required-lost", "stix2/v21/sdo.py", "drop-keyword", ["Identity", "drop required="], "C02.table"),
         ("range-off-by-one", "stix2/v21/observables.py", "int+1", ["65535 -> 65536"], "C02.table"),
@@ -52,6 +53,7 @@ CANARIES = {
         ("named-argument-by-truthiness", "stix2/v21/common.py", "text", ["if statement is not None and kwargs.get('statement') is None:", "if statement and not kwargs.get('statement'):"], "C03.absent-values"),
     ],
     "C04": [
+        ('marking-payload-flag-constant', 'stix2/v21/common.py', 'text', ['            return value, value.has_custom\n        else:\n            raise ValueError("must be a Statement, TLP Marking or a registered marking.")', '            return value, False\n        else:\n            raise ValueError("must be a Statement, TLP Marking or a registered marking.")'], 'C04.flag-back'),
         ('hashes-slot-is-a-plain-dictionary', 'stix2/v21/observables.py', 'text', ['        (\'hashes\', HashesProperty(HASHING_ALGORITHM, spec_version="2.1")),', '        (\'hashes\', DictionaryProperty(spec_version="2.1")),'], 'C04.flag-back'),
         ("hard-coded-true", "stix2/properties.py", "kw-true", ["ListProperty.clean", "allow_custom=True", "self.contained("], "C04.forward"),
         ("flag-dropped", "stix2/properties.py", "const-flag-return", ["EmbeddedObjectProperty.clean"], "C04.flag-back"),
@@ -110,6 +112,7 @@ CANARIES = {
         ("compression-drops-implied-selectors", "stix2/markings/utils.py", "text", ["    compressed = \\\n        [", "    for item_ in list(map_):\n        map_[item_] = {s_ for s_ in map_[item_] if '.' not in s_}\n    compressed = \\\n        ["], "C07.normal-form"),
     ],
     "C08": [
+        ('walk-stops-at-a-fixed-depth', 'stix2/markings/utils.py', 'text', ['    is, what is below it."""\n    if isinstance(value, collections.abc.Mapping):', '    is, what is below it."""\n    if len(path) > 16:\n        return\n    if isinstance(value, collections.abc.Mapping):'], 'C08.descends-into-objects'),
         ('selector-pre-check', 'stix2/base.py', 'text', ["                validate(self, m.get('selectors'))", "                if not m.get('selectors'):\n                    raise InvalidSelectorError(self, m)\n                validate(self, m.get('selectors'))"], 'C08.reject'),
         ("validate-skipped", "stix2/markings/granular_markings.py", "delete-call-stmt", ["add_markings", "utils.validate"], "C08.every-function"),
         ("super-chain-cut", "stix2/v20/sdo.py", "delete-call-stmt", ["Indicator._check_object_constraints", "super("], "C08.every-construction"),
@@ -159,6 +162,7 @@ CANARIES = {
         ("string-only-operator-guesses-a-timestamp", "stix2/patterns.py", "text", ["        elif isinstance(rhs, str) and self.operator in (\n            \"LIKE\", \"MATCHES\", \"ISSUBSET\", \"ISSUPERSET\",\n        ):", "        elif isinstance(rhs, str) and self.operator in (\n            \"LIKE\", \"ISSUBSET\", \"ISSUPERSET\",\n        ):"], "C10.operand-kinds"),
     ],
     "C11": [
+        ('bundle-members-deduplicated-by-id', 'stix2/datastore/filesystem.py', 'text', ['            for stix_obj in stix_data.get("objects", []):\n                self.add(stix_obj, version=version, pretty=pretty)', '            for stix_obj in stix_data.get("objects", []):\n                if stix_obj is not None:\n                    self.add(stix_obj, version=version, pretty=pretty)'], 'C11.all-versions-kept'),
         ('layout-guessed-from-the-query', 'stix2/datastore/filesystem.py', 'text', ['            type_is_versioned = _is_versioned_type_dir(type_path, type_dir)', '            type_is_versioned = _is_versioned_type_dir(type_path, type_dir) if auth_ids.auth_type != AuthSet.WHITE else True'], 'C11.filesystem-pruning'),
         ("overwrite-refusal-removed", "stix2/datastore/filesystem.py", "drop-raise-guard", ["_check_path_and_write", "os.path.isfile"], "C11.check-before-write"),
         ("sink-encoding-fixed", "stix2/datastore/filesystem.py", "text", ["bundlify=bundlify, encoding=encoding),", "bundlify=bundlify),"], "C11.encoding-agreement"),
@@ -166,6 +170,7 @@ CANARIES = {
         ("oldest-returned", "stix2/datastore/memory.py", "text", ['candidate["modified"] > stix_obj["modified"]', 'candidate["modified"] < stix_obj["modified"]'], "C11.newest"),
     ],
     "C12": [
+        ('whitelist-uses-lstat', 'stix2/datastore/filesystem.py', 'text', ['                    s = os.stat(os.path.join(parent_dir, filename))', '                    s = os.lstat(os.path.join(parent_dir, filename))'], 'C12.optimiser-table'),
         ('non-string-values-prune', 'stix2/datastore/filesystem.py', 'text', ['        if filter_.property in ("type", "id") and not (\n            isinstance(filter_.value, str) or (', '        if filter_.property in ("type", "id") and False and not (\n            isinstance(filter_.value, str) or ('], 'C12.optimiser-table'),
         ('dot-names-pass-the-entry-test', 'stix2/datastore/filesystem.py', 'text', ['                    or filename in (".", ".."):\n', '                    or filename in ():\n'], 'C12.optimiser-table'),
         ('layout-guessed-from-the-query', 'stix2/datastore/filesystem.py', 'text', ['            type_is_versioned = _is_versioned_type_dir(type_path, type_dir)', '            type_is_versioned = _is_versioned_type_dir(type_path, type_dir) if auth_ids.auth_type != AuthSet.WHITE else True'], 'C12.optimiser-table'),
@@ -197,6 +202,7 @@ CANARIES = {
         ("version-guard-replaced-by-a-property-name-test", "stix2/base.py", "text", ["                not isinstance(self, stix2.v20._STIXBase20):\n            # (STIX 2.0 has no extension definitions.)", "                \"spec_version\" in self._properties:\n            # (STIX 2.0 has no extension definitions.)"], "C14.version-constants"),
     ],
     "C15": [
+        ('datetime-rebuilt-from-fields', 'stix2/utils.py', 'text', ['    if isinstance(value, dt.date):\n', '    if isinstance(value, dt.datetime):\n        value = dt.datetime(value.year, value.month, value.day, value.hour, value.minute, value.second, value.microsecond, value.tzinfo)\n    if isinstance(value, dt.date):\n'], 'C15.utc'),
         ('offset-cut-off-before-reading', 'stix2/utils.py', 'text', ['            parsed = dt.datetime.strptime(value, fmt)', "            value = value.replace('+00:00', 'Z')\n            parsed = dt.datetime.strptime(value, fmt)"], 'C15.api-domain'),
         ("millisecond-two-digits", "stix2/utils.py", "int-1", ["format_datetime", "3 -> 2", ":3"], "C15.branch-table"),
         ("utc-branches-swapped", "stix2/utils.py", "negate-if", ["format_datetime", "tzinfo is None"], "C15.utc"),
@@ -260,6 +266,7 @@ CANARIES = {
         ("source-dropped-when-a-store-is-given", "stix2/environment.py", "text", ["        if source:\n            self.source.add_data_source(source)", "        elif source:\n            self.source.add_data_source(source)"], "C18.member-forward"),
     ],
     "C19": [
+        ('ready-made-extension-by-type-name', 'stix2/properties.py', 'text', ['                elif isinstance(subvalue, cls):', '                elif isinstance(subvalue, _STIXBase) and subvalue._type == key:'], 'C19.version-scope'),
         ('content-overrides-the-named-version', 'stix2/parsing.py', 'text', ['        if not version:\n            version = detect_spec_version(obj)', "        if not version or 'spec_version' in obj:\n            version = detect_spec_version(obj)"], 'C19.version-scope'),
         ("duplicate-refusal-removed", "stix2/registration.py", "drop-raise-guard", ["_register_observable", "OBJ_MAP_OBSERVABLE"], "C19.map-agreement"),
         ("wrong-category", "stix2/registration.py", "str-perturb", ["_register_marking", "'markings'"], "C19.map-agreement"),
